@@ -116,6 +116,44 @@ def none_arm(body, call):
     return regs[m["None"]], m
 
 
+def classification_only(ctx, F):
+    # classification table
+    ire = F.body(KA + "helpers::is_recoverable_error")
+    ctx.touch(ire)
+    sws = K.find_variant_switches(ire, "selium_std::errors::SeliumError")
+    table = {}
+    if sws:
+        arms, adt, pl, other, allv = K.arm_map(ire, sws[0])
+        def arm_val(blocks):
+            cs = [c.name() for c in K.calls_in(ire, blocks)]
+            consts = [flow.const_of(rv["op"]) for i, j, pl2, rv, s in K.assigns_in(ire, blocks) if pl2["l"] == 0 and rv["k"] == "use" and flow.const_of(rv["op"]) is not None]
+            return tuple(sorted(cs)), tuple(sorted(set(consts)))
+        for v, blocks in arms.items():
+            table[v] = arm_val(blocks)
+        table["_"] = arm_val(other)
+    expect = {"IoError": (("is_disconnect_error",), ()), "OpenStream": (("is_bind_error",), ())}
+    # the fall-through (`_ =>`) and the non-ConnectionError Quic errors must yield false
+    def consts_from(bb):
+        r = ire.reachable(bb)
+        return {flow.const_of(rv["op"]) for i, j, pl2, rv, s in ire.assigns() if i in r and pl2["l"] == 0 and rv["k"] == "use" and flow.const_of(rv["op"]) is not None}, \
+            [c.name() for c in ire.calls() if c.bb in r]
+    dflt = consts_from(ire.term(sws[0])["otherwise"]) if sws else (set(), ["?"])
+    quic_ok = False
+    if sws:
+        v = flow.switch_on_variant(ire, sws[0])
+        qt = v[2].get("Quic")
+        if qt is not None:
+            for qs in K.find_variant_switches(ire, "selium_std::errors::QuicError"):
+                qv = flow.switch_on_variant(ire, qs)
+                only_conn = set(qv[2]) == {"ConnectionError"}
+                yes = consts_from(qv[2]["ConnectionError"]) if only_conn else (set(), [])
+                no = consts_from(qv[3])
+                quic_ok = only_conn and yes == ({True}, []) and no == ({False}, [])
+    ok = all(table.get(k) == v for k, v in expect.items()) and quic_ok and dflt == ({False}, []) and set(table) <= {"IoError", "OpenStream", "Quic", "_"}
+    ctx.check(ok, "C12.D2.classification", "recoverable-table", "is_recoverable_error classifies exactly: IoError->is_disconnect_error, Quic(ConnectionError)->true, "
+              "OpenStream->is_bind_error, everything else->false (found %s, default %s)" % (table, dflt), ire.span)
+
+
 def d2(ctx, F):
     tr = inl(F, F.one_body(r"^selium::keep_alive::reqrep::KeepAlive::<T>::try_reconnect::\{closure#0\}$"))
     nexts = [c for c in tr.calls() if strip_generics(c.callee) == ITER_NEXT and "BackoffStrategyIter" in c.self_ty]
@@ -173,41 +211,7 @@ def d2(ctx, F):
                 errs = [rv["variant"] for i, j, pl2, rv, s in K.aggregates(b, "selium_std::errors::QuicError", arms["Exhausted"])]
                 ok = errs == ["TooManyRetries"]
         ctx.check(ok, "C12.D2.exhausted-reported", "pubsub:exhausted-silent:%s" % meth, "KeepAlive::%s reports TooManyRetries once exhausted" % meth, b.span)
-    # classification table
-    ire = F.body(KA + "helpers::is_recoverable_error")
-    ctx.touch(ire)
-    sws = K.find_variant_switches(ire, "selium_std::errors::SeliumError")
-    table = {}
-    if sws:
-        arms, adt, pl, other, allv = K.arm_map(ire, sws[0])
-        def arm_val(blocks):
-            cs = [c.name() for c in K.calls_in(ire, blocks)]
-            consts = [flow.const_of(rv["op"]) for i, j, pl2, rv, s in K.assigns_in(ire, blocks) if pl2["l"] == 0 and rv["k"] == "use" and flow.const_of(rv["op"]) is not None]
-            return tuple(sorted(cs)), tuple(sorted(set(consts)))
-        for v, blocks in arms.items():
-            table[v] = arm_val(blocks)
-        table["_"] = arm_val(other)
-    expect = {"IoError": (("is_disconnect_error",), ()), "OpenStream": (("is_bind_error",), ())}
-    # the fall-through (`_ =>`) and the non-ConnectionError Quic errors must yield false
-    def consts_from(bb):
-        r = ire.reachable(bb)
-        return {flow.const_of(rv["op"]) for i, j, pl2, rv, s in ire.assigns() if i in r and pl2["l"] == 0 and rv["k"] == "use" and flow.const_of(rv["op"]) is not None}, \
-            [c.name() for c in ire.calls() if c.bb in r]
-    dflt = consts_from(ire.term(sws[0])["otherwise"]) if sws else (set(), ["?"])
-    quic_ok = False
-    if sws:
-        v = flow.switch_on_variant(ire, sws[0])
-        qt = v[2].get("Quic")
-        if qt is not None:
-            for qs in K.find_variant_switches(ire, "selium_std::errors::QuicError"):
-                qv = flow.switch_on_variant(ire, qs)
-                only_conn = set(qv[2]) == {"ConnectionError"}
-                yes = consts_from(qv[2]["ConnectionError"]) if only_conn else (set(), [])
-                no = consts_from(qv[3])
-                quic_ok = only_conn and yes == ({True}, []) and no == ({False}, [])
-    ok = all(table.get(k) == v for k, v in expect.items()) and quic_ok and dflt == ({False}, []) and set(table) <= {"IoError", "OpenStream", "Quic", "_"}
-    ctx.check(ok, "C12.D2.classification", "recoverable-table", "is_recoverable_error classifies exactly: IoError->is_disconnect_error, Quic(ConnectionError)->true, "
-              "OpenStream->is_bind_error, everything else->false (found %s, default %s)" % (table, dflt), ire.span)
+    classification_only(ctx, F)
     # the classification only works on errors that reach it unchanged: a transport error met while waiting for the registration
     # acknowledgement (handle_reply's `Some(Err(e))`) must be returned as it is, not re-wrapped as a (non-recoverable) OpenStream error
     hr = F.inlined(F.one_body(r"^selium::streams::handle_reply::\{closure#0\}$"))
@@ -246,6 +250,13 @@ def d2(ctx, F):
                       "%s::%s returns the framed transport's result as it is (no error re-typing between the wire and is_recoverable_error)" % ((im.get("self_adt") or "").rsplit("::", 1)[-1], m_),
                       (remap[0].span if remap else built[0].get("span", b_.span) if built else b_.span))
     ctx.check(nb >= 4, "C12.D2.transport-error-unchanged", "bistream:poll-fns-missing", "the poll functions of the BiStream halves were analysed (%d)" % nb)
+    if not passthrough:
+        # `stream.next().await.transpose()?`: Option<Result<T, E>> -> Result<Option<T>, E>, the error propagated by `?` as it is
+        for c in hr.calls():
+            if strip_generics(c.callee) == "core::option::Option::transpose" and c.dest is not None:
+                te = K.try_edges(hr, c)
+                if te is not None and te[1] is not None:
+                    passthrough = True
     ctx.check(passthrough, "C12.D2.transport-error-unchanged", "handle_reply:transport-error-rewrapped",
               "handle_reply returns a stream error met during registration unchanged (so that a connection lost mid-registration stays recoverable)", hr.span)
     ide = F.body(KA + "helpers::is_disconnect_error")
@@ -397,6 +408,12 @@ def d6(ctx, F):
             if fl & retl or pl["l"] in retl:
                 oks.append(s.get("span", lb.span))
     ctx.check(not oks, "C12.D3.replier-keeps-listening", "listen:returns-ok", "KeepAlive<Replier>::listen has no Ok return: the end of its stream always leads to a reconnect episode or an error", (oks or [lb.span])[0])
+    # the recovery of a requestor happens inside request(): no timer may bound (and cancel) the retry loop as a whole — the per-request
+    # timeout lives in Requestor::request, the delays in the back-off schedule
+    timers = [c for p_, b_ in sorted(F.bodies.items()) if p_.startswith(KA + "reqrep::") for c in b_.calls()
+              if strip_generics(c.callee) in ("tokio::time::timeout::timeout", "tokio::time::timeout::timeout_at", "tokio::time::sleep::sleep_until")]
+    ctx.check(not timers, "C12.D3.recovery-not-cancelled", "reqrep:timer-around-recovery", "the reconnecting request/reply wrapper puts no timer of its own around a call and its recovery (%s)"
+              % (", ".join(sorted({c.body.path.rsplit("::", 2)[-2] for c in timers})) or "none"), (timers or [lb])[0].span)
     n = 0
     for im in F.impls_of(TRAIT):
         path_ = im.get("items", {}).get("get_headers")
